@@ -66,12 +66,14 @@ CONSTANTS
  Record = %(record)s
  WithSet = %(withset)s
  WithRemap = %(withremap)s
+ WithRecentre = TRUE
+ Shape = "%(shape)s"
 %(invs)s
 CHECK_DEADLOCK FALSE
 """
 
 
-def tc_cfg(trees, mech, maxlen, record, invs, recs="TRUE, FALSE", withset=True, withremap=True):
+def tc_cfg(trees, mech, maxlen, record, invs, recs="TRUE, FALSE", withset=True, withremap=True, shape="any"):
     return TC_CFG % {
         "trees": ", ".join('"%s"' % t for t in trees),
         "recs": recs,
@@ -80,6 +82,7 @@ def tc_cfg(trees, mech, maxlen, record, invs, recs="TRUE, FALSE", withset=True, 
         "record": "TRUE" if record else "FALSE",
         "withset": "TRUE" if withset else "FALSE",
         "withremap": "TRUE" if withremap else "FALSE",
+        "shape": shape,
         "invs": "".join("INVARIANT %s\n" % i for i in invs),
     }
 
@@ -90,13 +93,16 @@ def tree_model(ctx):
     if ctx.tier == "thorough":
         scopes += [(["ball"], 4), (["kd"], 4)]
     for trees, depth in scopes:
-        ctx.tlc_ok("TreeCache", tc_cfg(trees, "MechIntended", depth, False, ["TypeOK", "HandBack", "Coherent", "StableHandle"]), what="intended mechanism: HandBack, Coherent, StableHandle; %s, depth %d" % ("+".join(trees), depth))
-        ctx.tlc_ok("TreeCache", tc_cfg(trees, "MechObserved", depth, False, ["TypeOK", "HandBack", "Coherent"]), what="mechanism as transcribed from the code: HandBack, Coherent; %s, depth %d" % ("+".join(trees), depth))
+        ctx.tlc_ok("TreeCache", tc_cfg(trees, "MechIntended", depth, False, ["TypeOK", "HandBack", "Coherent", "Rebuilt", "StableHandle"]), what="intended mechanism: HandBack, Coherent, Rebuilt, StableHandle; %s, depth %d" % ("+".join(trees), depth))
+        ctx.tlc_ok("TreeCache", tc_cfg(trees, "MechObserved", depth, False, ["TypeOK", "HandBack", "Coherent", "Rebuilt"]), what="mechanism as transcribed from the code: HandBack, Coherent, Rebuilt; %s, depth %d" % ("+".join(trees), depth))
     # the two ways the mechanism is expected to fall short / did fall short: TLC must find them
     r = ctx.tlc("TreeCache", tc_cfg(both, "MechObserved", 3, False, ["StableHandle"]), what="observed mechanism: StableHandle (expected to be refuted: the handle is the cached object)", count=False)
     if r.violated != "StableHandle":
         raise Machinery("TLC did not refute StableHandle under MechObserved: %s" % r)
     ctx.note("stable_handle_under_observed_mechanism", "refuted by TLC (get nodes; get face centers: the first handle now answers for face centers)")
+    r = ctx.tlc("TreeCache", tc_cfg(both, "MechRecFlagOnly", 3, False, ["Rebuilt"]), what="in-model mutant MechRecFlagOnly (reconstruct only sets a flag): Rebuilt must be refuted", count=False)
+    if r.violated != "Rebuilt":
+        raise Machinery("TLC did not refute Rebuilt under MechRecFlagOnly: %s" % r)
     for mech in ("MechKindOnly", "MechNoMetric"):
         r = ctx.tlc("TreeCache", tc_cfg(both, mech, 3, False, ["HandBack"]), what="in-model mutant %s: HandBack must be refuted" % mech, count=False)
         if r.violated != "HandBack":
@@ -116,11 +122,11 @@ def hist_entry():
     return HIST_ENTRY
 
 
-def gen_histories(ctx, trees, maxlen, simulate=None, depth=None, recs="TRUE, FALSE", seed=None):
+def gen_histories(ctx, trees, maxlen, simulate=None, depth=None, recs="TRUE, FALSE", seed=None, shape="any"):
     kw = {}
     if simulate:
         kw = {"simulate": simulate, "depth": depth, "seed": seed}
-    r = ctx.tlc_ok("TreeCache", tc_cfg(trees, "MechObserved", maxlen, True, ["HandBack", "Emit"], recs=recs), what="generate request histories of length %d over %s%s" % (maxlen, "+".join(trees), " (simulation)" if simulate else " (all)"), workers=8 if not simulate else 1, timeout=1500, **kw)
+    r = ctx.tlc_ok("TreeCache", tc_cfg(trees, "MechObserved", maxlen, True, ["HandBack", "Emit"], recs=recs, shape=shape), what="generate request histories of length %d over %s%s%s" % (maxlen, "+".join(trees), " (simulation)" if simulate else " (all)", ", construct_face_centers as the second step" if shape != "any" else ""), workers=8 if not simulate else 1, timeout=1500, **kw)
     out = []
     for v in r.prints:
         if isinstance(v, tuple) and len(v) == 2 and v[0] == "H":
@@ -179,6 +185,17 @@ def hist_grid():
         for p in ("node", "face", "edge"):
             for c in ("lon", "lat", "x", "y", "z"):
                 ds["%s_%s" % (p, c)] = xr.DataArray(np.array(getattr(g0, "%s_%s" % (p, c)).values, dtype=float), dims=["n_" + p])
+        # the face centres of the history grid are SUPPLIED and are not the nodal centroids, so that
+        # Grid.construct_face_centers changes what the grid reports
+        from harness import lattice
+
+        off = X.off_face_dirs(hist_entry())
+        ll = [lattice.lonlat_deg(d) for d in off]
+        uu = [lattice.unit(d) for d in off]
+        ds["face_lon"] = xr.DataArray(np.array([a for a, _ in ll]), dims=["n_face"])
+        ds["face_lat"] = xr.DataArray(np.array([b for _, b in ll]), dims=["n_face"])
+        for ci, c in enumerate("xyz"):
+            ds["face_" + c] = xr.DataArray(np.array([u[ci] for u in uu]), dims=["n_face"])
         ds["face_node_connectivity"] = xr.DataArray(np.array(g0.face_node_connectivity.values), dims=["n_face", "n_max_face_nodes"], attrs=dict(g0.face_node_connectivity.attrs))
         ds["edge_node_connectivity"] = xr.DataArray(np.array(g0.edge_node_connectivity.values), dims=["n_edge", "two"])
         _G0 = ds
@@ -201,9 +218,10 @@ def replay_history(item):
     handles = []
     trees = []
     steps = []
+    cvnow = 0
     for st in hist:
         act = st["act"]
-        rec = {"act": act}
+        rec = {"act": act, "cvnow": cvnow}
         try:
             if act[0] == "get":
                 _, t, kind, system, metric, rcn = act
@@ -222,6 +240,12 @@ def replay_history(item):
                 rec["ret"] = idx + 1
                 rec["want"] = [kind, system, metric]
                 rec["cached"] = bool((g._ball_tree if t == "ball" else g._kd_tree) is h)
+            elif act[0] == "recentre":
+                g.construct_face_centers(method="cartesian average")
+                cvnow = 1
+                rec["cvnow"] = 1
+                rec["ret"] = 0
+                rec["want"] = None
             elif act[0] == "remap":
                 # a remap call from this grid with data on act[1]; its internal wrapper is not handed out
                 ux = hux.import_ux()
@@ -252,13 +276,20 @@ def replay_history(item):
             if h is None:
                 obs.append(None)
                 continue
+            pcv = st["pred"][i][3] if i < len(st["pred"]) else cvnow
             if i == rec["ret"] - 1:
                 expect = rec["want"]
-            elif i < len(st["pred"]) and combo_ok(trees[i], st["pred"][i]):
-                expect = st["pred"][i]
+                # reconstruct = TRUE must answer from the centres the grid reports now; otherwise the model's prediction
+                ecv = cvnow if (act[0] == "get" and bool(act[5])) else pcv
+            elif i < len(st["pred"]) and combo_ok(trees[i], st["pred"][i][:3]):
+                expect = st["pred"][i][:3]
+                ecv = pcv
             else:
                 expect = attr_of(h)
-            obs.append({"attr": attr_of(h), "expect": list(expect), "tree": trees[i], "beh": run_panel(h, trees[i], expect)})
+                ecv = pcv
+            if expect[0] != "face centers":
+                ecv = 0
+            obs.append({"attr": attr_of(h), "expect": list(expect), "cv": int(ecv), "tree": trees[i], "beh": run_panel(h, trees[i], expect)})
         rec["obs"] = obs
         steps.append(rec)
     return {"id": hid, "steps": steps}
@@ -268,20 +299,26 @@ def behaviour_verdicts(ctx, behs):
     """behs: set of (tree, kind, system, metric, beh). Returns {key: set(failed clause names)}.
     Exact orders are judged by TLC; planar / Manhattan orders by the float oracle."""
     e = hist_entry()
-    g = hist_grid()
+    gcv = {0: hist_grid(), 1: hist_grid()}
+    gcv[1].construct_face_centers(method="cartesian average")
     out = {}
     S = {}
     for kind in X.KINDS:
         for system in ("spherical", "cartesian"):
-            S[(kind, system)] = X.project(e, g, kind, system)
-            if S[(kind, system)] is None:
-                raise Machinery("history grid: %s not on the lattice in %s coordinates" % (kind, system))
-    cases = [{"id": "hp|%s|%s|%d" % (kind, system, qi), "q": q, "S": S[(kind, system)]} for kind in X.KINDS for system in ("spherical", "cartesian") for qi, q in enumerate(PANEL_Q)]
+            for cv in (0, 1):
+                # version 0 of the face centres: the supplied off-centre directions; version 1: the nodal centroids
+                S[(kind, system, cv)] = X.project(e, gcv[cv], kind, system, "topology_offcentres" if (kind == "face centers" and cv == 0) else "topology")
+                if S[(kind, system, cv)] is None:
+                    raise Machinery("history grid: %s (centre version %d) not on the lattice in %s coordinates" % (kind, cv, system))
+    if S[("face centers", "spherical", 0)] == S[("face centers", "spherical", 1)]:
+        raise Machinery("history grid: construct_face_centers does not change the face centres")
+    cases = [{"id": "hp|%s|%s|%d|%d" % (kind, system, cv, qi), "q": q, "S": S[(kind, system, cv)]} for kind in X.KINDS for system in ("spherical", "cartesian") for cv in (0, 1) for qi, q in enumerate(PANEL_Q)]
     plans = X.plan(ctx, cases)
     recs = {}
     jmap = {}
     for key in sorted(behs, key=repr):
-        tree, kind, system, metric, beh = key
+        tree, kind, system, metric, cv, beh = key
+        g = gcv[cv]
         if beh[0] != "ok":
             out[key] = {"Raises" if beh[0] == "error" else "KnnShape"}
             continue
@@ -293,8 +330,8 @@ def behaviour_verdicts(ctx, behs):
         if is_exact(tree, system, metric):
             unit = "deg" if system == "spherical" else "chord"
             for qi in range(len(PANEL_Q)):
-                cid = "hp|%s|%s|%d" % (kind, system, qi)
-                r = recs.setdefault(cid, {"id": cid, "q": PANEL_Q[qi], "S": S[(kind, system)], "ents": []})
+                cid = "hp|%s|%s|%d|%d" % (kind, system, cv, qi)
+                r = recs.setdefault(cid, {"id": cid, "q": PANEL_Q[qi], "S": S[(kind, system, cv)], "ents": []})
                 j = len(jmap)
                 jmap[(cid, j)] = key
                 r["ents"].append({"j": j, "m": "knn", "k": PANEL_K, "res": list(inds[qi])})
@@ -334,6 +371,7 @@ def histories(ctx, rng):
         ctx.exhaustive = True
     else:
         hs += gen_histories(ctx, ["ball", "kd"], 2)  # every history of length <= 2, both trees, full alphabet
+        hs += gen_histories(ctx, ["ball", "kd"], 3, shape="recentre_mid")  # request, construct_face_centers, request: full alphabet
         hs += gen_histories(ctx, ["ball"], 3, recs="FALSE")
         k3 = gen_histories(ctx, ["kd"], 3, recs="FALSE")
         hs += rng.sample(k3, min(len(k3), 1200))
@@ -358,7 +396,7 @@ def histories(ctx, rng):
             for o in st.get("obs", []):
                 if o is None:
                     continue
-                behs.add((o["tree"], o["expect"][0], o["expect"][1], o["expect"][2], o["beh"]))
+                behs.add((o["tree"], o["expect"][0], o["expect"][1], o["expect"][2], o["cv"], o["beh"]))
     verdict = behaviour_verdicts(ctx, behs)
     drift = 0
     alias_changes = 0
@@ -381,20 +419,23 @@ def histories(ctx, rng):
             model = hist[si]
             if st["ret"] != model["ret"]:
                 drift += 1
-            if st["act"][0] == "remap":
+            if st["act"][0] in ("remap", "recentre"):
                 continue
             ret = st["ret"] - 1
             for i, o in enumerate(st["obs"]):
                 if o is None:
                     continue
-                bkey = (o["tree"], o["expect"][0], o["expect"][1], o["expect"][2], o["beh"])
+                bkey = (o["tree"], o["expect"][0], o["expect"][1], o["expect"][2], o["cv"], o["beh"])
                 bad_beh = verdict[bkey]
                 if i == ret:
                     prev = promised.get(i)
-                    sig = {"op": st["act"][0], "differs": differs(st["want"], o["attr"]), "prev_differs": differs(st["want"], prev) if prev else "fresh"}
+                    sig = {"op": st["act"][0], "differs": differs(st["want"], o["attr"]), "prev_differs": differs(st["want"], prev) if prev else "fresh", "after_recentre": bool(st["cvnow"]), "reconstruct": bool(st["act"][0] == "get" and st["act"][5])}
                     if o["attr"] != st["want"]:
                         ctx.violation(key, "HandBackAttributes", detail={"requested": st["want"], "handed_back": o["attr"]}, replay=rp, sig=sig)
-                    if bad_beh:
+                    stale_allowed = st["cvnow"] == 1 and st["want"][0] == "face centers" and not (st["act"][0] == "get" and bool(st["act"][5]))
+                    if bad_beh and stale_allowed:
+                        drift += 1  # a cached tree of the old centres: predicted by the model, outside this clause
+                    elif bad_beh:
                         ctx.violation(key, "HandBackBehaviour", detail={"requested": st["want"], "handed_back_attr": o["attr"], "failed": sorted(bad_beh), "panel": o["beh"][:2]}, replay=rp, sig=dict(sig, failed="+".join(sorted(bad_beh))))
                     if prev is not None and prev != list(st["want"]) and st["act"][0] == "get":
                         alias_changes += 1
@@ -498,6 +539,50 @@ def call_radius(tree, system, h, coords, r, unit, **kw):
     if system == "spherical":
         kw["in_radians"] = unit == "rad"
     return h.query_radius(coords, r=r, **kw)
+
+
+def norm_answer(a):
+    """An API answer as nested plain lists (indices, distances, counts; object arrays of rows)."""
+    if isinstance(a, tuple):
+        return [norm_answer(x) for x in a]
+    if isinstance(a, list):
+        return [norm_answer(x) for x in a]
+    a = np.asarray(a)
+    if a.dtype == object:
+        return [norm_answer(x) for x in a]
+    return a.tolist()
+
+
+def run_purity(h, tree, system, unit, rows, pur, k2, r, n):
+    """Call every query entry point with ONE caller-owned container, 1 + repeats times.
+    Returns (first answers {op: answer}, failures [(clause, op, detail)])."""
+    single = not pur["batched"]
+    ops = {
+        "query k=1": lambda c: call_query(tree, system, h, c, 1, unit),
+        "query k>1": lambda c: call_query(tree, system, h, c, k2, unit),
+        "query no distance": lambda c: call_query(tree, system, h, c, k2, unit, return_distance=False),
+        "radius": lambda c: call_radius(tree, system, h, c, r, unit),
+        "radius with distance": lambda c: call_radius(tree, system, h, c, r, unit, return_distance=True),
+        "radius count": lambda c: call_radius(tree, system, h, c, r, unit, count_only=True),
+    }
+    first, fails = {}, []
+    cont, keep = X.make_container(pur["container"], rows, single)
+    for op in pur["ops"]:
+        fp0 = X.fingerprint(cont, keep)
+        answers = []
+        try:
+            for _ in range(1 + pur["repeats"]):
+                answers.append(norm_answer(ops[op](cont)))
+        except Exception as e:  # noqa
+            fails.append(("Raises", op, "%s: %s" % (type(e).__name__, str(e)[:160])))
+        if answers:
+            first[op] = answers[0]
+            if any(a != answers[0] for a in answers[1:]):
+                fails.append(("Repeatable", op, {"answers": [str(a)[:120] for a in answers[:3]]}))
+        if X.fingerprint(cont, keep) != fp0:
+            fails.append(("ArgsKept", op, {"container_after": str(cont)[:160]}))
+            cont, keep = X.make_container(pur["container"], rows, single)  # a pristine one for the next entry point
+    return first, fails
 
 
 def radius_sig(ent, cfg, pl):
@@ -649,6 +734,55 @@ def run_group(grp):
                                     num.append({"clause": "DistanceUnit", "tag": rtag, "cfg": cfgname, "unit": unit, "mode": "radius", "detail": {"d": d[:4]}})
                             except Exception as e:  # noqa
                                 errors.append({"cfg": cfgname, "call": "query_radius " + rtag, "error": "%s: %s" % (type(e).__name__, str(e)[:160])})
+            # ---- argument purity and repeatability (container kind and repeat count from TLC's plan)
+            for qi, q in enumerate(qs):
+                pur = grp["purity"].get(qi)
+                if pur is None:
+                    continue
+                cid = "%s|%s|%s|%s|%d" % (grp["gid"], variant, kind, sg, qi) if exact else None
+                pl = grp["plans"].get(cid) if exact else None
+                k2 = min(3, n)
+                rows = [pres[qi], pres[(qi + 1) % len(qs)]]
+                if exact:
+                    ncls = max(pl["cls"]) + 1
+                    rc = min(1, ncls - 2) if ncls >= 2 else -1
+                    rr = X.radius_for(pl, runit, rc)
+                    if rr is None:
+                        rc, rr = 0, X.radius_for(pl, runit, 0)
+                    if rr is None:
+                        continue
+                else:
+                    qc = pres[qi] if unit != "deg" else [math.radians(pres[qi][0]), math.radians(pres[qi][1])]
+                    rr = float(np.median(X.float_dists(built, qc, metric))) * sc + 1e-3 * sc
+                ptag = "%s|%s|purity(%s%s x%d)|q=%s" % (cfgname, unit, pur["container"], ",batched" if pur["batched"] else "", 1 + pur["repeats"], q)
+                first, fails = run_purity(h, tree, system, unit, rows, pur, k2, rr, n)
+                for clause, op, detail in fails:
+                    num.append({"clause": clause, "tag": ptag + "|" + op, "cfg": cfgname, "unit": unit, "mode": "purity", "container": pur["container"], "op": op, "detail": detail})
+                if not exact:
+                    nfloat += len(first)
+                    continue
+                row0 = (lambda a: a[0]) if pur["batched"] else (lambda a: a)
+                try:
+                    if "query k=1" in first:
+                        d, ind = first["query k=1"]
+                        add(cid, ptag + "|knn k=1", {"m": "knn", "k": 1, "res": X.flat_int(row0(ind))})
+                    if "query k>1" in first:
+                        d, ind = first["query k>1"]
+                        ind0, d0 = X.flat_int(row0(ind)), X.flat_float(row0(d))
+                        add(cid, ptag + "|knn k=%d" % k2, {"m": "knn", "k": k2, "res": ind0})
+                        if pur["container"] != "f32" and X.dist_errors(pl, dunit, ind0, d0):
+                            num.append({"clause": "DistanceUnit", "tag": ptag + "|knn", "cfg": cfgname, "unit": unit, "mode": "purity", "container": pur["container"], "op": "query k>1", "detail": X.dist_errors(pl, dunit, ind0, d0)[:3]})
+                    if "query no distance" in first:
+                        add(cid, ptag + "|knn-nodist k=%d" % k2, {"m": "knn", "k": k2, "res": X.flat_int(row0(first["query no distance"]))})
+                    if "radius" in first:
+                        add(cid, ptag + "|r=%.6g(class %d)|rad" % (rr, rc), {"m": "rad", "c": rc, "res": X.flat_int(row0(first["radius"]))})
+                    if "radius with distance" in first:
+                        d, ind = first["radius with distance"]
+                        add(cid, ptag + "|r=%.6g(class %d)|rad+d" % (rr, rc), {"m": "rad", "c": rc, "res": X.flat_int(row0(ind))})
+                    if "radius count" in first:
+                        add(cid, ptag + "|r=%.6g(class %d)|cnt" % (rr, rc), {"m": "cnt", "c": rc, "n": X.flat_int(first["radius count"])[0]})
+                except Exception as e:  # noqa
+                    num.append({"clause": "AnswerShape", "tag": ptag, "cfg": cfgname, "unit": unit, "mode": "purity", "container": pur["container"], "op": "-", "detail": "%s: %s" % (type(e).__name__, str(e)[:160])})
             # ---- batched
             for k in sorted({1, min(3, n)}):
                 try:
@@ -788,6 +922,11 @@ def queries(ctx, rng):
     for gqp in groups:
         pre = "%s|%s|%s|" % (gqp["gid"], gqp["variant"], gqp["kind"])
         gqp["plans"] = {cid: p for cid, p in plans.items() if cid.startswith(pre)}
+        gqp["purity"] = {}
+        for cid, pp in gqp["plans"].items():
+            qi = int(cid.rsplit("|", 1)[1])
+            if qi % (1 if thorough else 2) == 0:  # quick: every second query point
+                gqp["purity"].setdefault(qi, pp["purity"])
     res = pmap(run_group, groups, chunk=1)
     recs = []
     tags = {}
@@ -817,7 +956,7 @@ def queries(ctx, rng):
             ctx.violation("%s::%s" % (cid, tag), clause, detail={"answer": ent, "lt": plans[cid]["lt"]}, replay={"grid": cid.split("|")[0], "variant": cid.split("|")[1], "kind": cid.split("|")[2], "q": c["q"], "S": c["S"], "call": tag, "answer": ent}, sig=dict({"cfg": cfg, "unit": unit, "presentation": mode, "mode": ent["m"], "xyz_matches_lonlat": xyz_of["|".join(cid.split("|")[:3])]}, **radius_sig(ent, cfg, plans[cid])))
     for r in res:
         for nf in r["num"]:
-            sig = {"cfg": nf["cfg"], "unit": nf["unit"], "mode": nf["mode"], "rk": nf.get("rk", "-"), "xyz_matches_lonlat": xyz_of["%s|%s|%s" % (r["gid"], r["variant"], r["kind"])]}
+            sig = {"cfg": nf["cfg"], "unit": nf["unit"], "mode": nf["mode"], "rk": nf.get("rk", "-"), "container": nf.get("container", "-"), "op": nf.get("op", "-"), "xyz_matches_lonlat": xyz_of["%s|%s|%s" % (r["gid"], r["variant"], r["kind"])]}
             if "answer_is_r_in_radians" in nf:
                 sig["answer_is_r_in_radians"] = nf["answer_is_r_in_radians"]
             ctx.violation("%s|%s|%s::%s" % (r["gid"], r["variant"], r["kind"], nf["tag"]), nf["clause"], detail=nf["detail"], replay={"grid": r["gid"], "variant": r["variant"], "kind": r["kind"], "call": nf["tag"]}, sig=sig)
